@@ -100,7 +100,9 @@ def _info_bounded(prop):
             "velocities, files written by this module's own formatter. On each file: iteration equals the record list and splits "
             "exactly at (number,name) changes; len/n_atoms/box/title (the same contracts also on every sequence of length <= 3 (4) "
             "with titles containing multi-byte UTF-8 characters and/or CRLF line ends, where character counts differ from byte offsets; "
-            "the seeded larger files alternate these variants); every index in [-len,len), 4 out-of-range indices and 18 slices "
+            "the seeded larger files alternate these variants; and on every sequence of length <= 3 (4) with coordinates / velocities "
+            "that fill their whole 8-character field -- x, y, z and each velocity component, in the first and in later records -- so "
+            "that numeric fields touch; the seeded larger files carry such a value in every 7th record); every index in [-len,len), 4 out-of-range indices and 18 slices "
             "from the state after construction, from every forced cursor position in [0,natoms] and after a partial iteration stopped "
             "after every residue (the suspended generator is then resumed and must still yield the remaining residues); all ordered "
             "pairs of accesses from a sub-family. Random public-API histories of length 200 on seeded larger files; the shipped "
@@ -149,12 +151,36 @@ def utf8_default():
     return bool(sys.flags.utf8_mode) or locale.getpreferredencoding(False).lower().replace("-", "") == "utf8"
 
 
-def mk_record(i, resid, resname, name, vel):
+def wide_components(i, ncomp, wide):
+    """Which of the numeric fields of atom i are given a value that fills the whole 8-character field
+    (>= 1000.000 / <= -100.000 with %8.3f, >= 100.0000 / <= -10.0000 with %8.4f), so that it touches the
+    field before it.  wide: None | "all" | ("rot", shift) one rotating field per atom | ("sparse", period)."""
+    if wide is None:
+        return ()
+    if wide == "all":
+        return tuple(range(ncomp))
+    if wide[0] == "rot":
+        return ((i + wide[1]) % ncomp,)
+    if wide[0] == "sparse":
+        return ((i // wide[1]) % ncomp,) if i % wide[1] == 0 else ()
+    raise ValueError(wide)
+
+
+def mk_record(i, resid, resname, name, vel, wide=None):
     """i: 0-based serial of the atom in the file.  Coordinates are distinct per atom
     and exact multiples of the printed resolution."""
     pos = [111 * (i + 1) / 1000, -(7 * (i + 1) + 500) / 1000, (1000 + 13 * ((i * i) % 97) + i % 5) / 1000]
     v = [(3 * (i + 1) - 2000) / 10000, (17 * ((i * 7) % 53) + 1) / 10000, -(i + 1) / 10000] if vel else None
+    for c in wide_components(i, 6 if vel else 3, wide):
+        neg = (i + (c if wide == "all" else 0)) % 2 == 1      # both signs, in first and later records
+        if c < 3:       # %8.3f: '1000.112' / '-100.007' are 8 characters
+            pos[c] = -(100000 + 7 * (i + 1) + c) / 1000 if neg else (1000000 + 111 * (i + 1) + c) / 1000
+        else:           # %8.4f: '100.0003' / '-10.0001'
+            v[c - 3] = -(100000 + (i + 1) * 3 + c) / 10000 if neg else (1000000 + 3 * (i + 1) + c) / 10000
     return (resid, resname, name, i + 1, pos, v)
+
+
+FW_VARIANTS = (("fullwidth-rot0", ("rot", 0)), ("fullwidth-rot2", ("rot", 2)), ("fullwidth-all", "all"))
 
 
 def box_matrix_of(boxvals):
@@ -209,13 +235,13 @@ def numbering(scheme, seq):
 BOXES = ([3.0, 4.0, 5.0], [3.0, 4.0, 5.0, 0.0, 0.0, 1.0, 0.0, 0.5, 1.5])
 
 
-def small_file(seq, scheme, vel, variant=0, title=None, eol="\n"):
+def small_file(seq, scheme, vel, variant=0, title=None, eol="\n", wide=None):
     nums = numbering(scheme, seq)
     recs = []
     for kind, num in zip(seq, nums):
         resname, atoms = KINDS[kind]
         for an in atoms:
-            recs.append(mk_record(len(recs), num, resname, an, vel))
+            recs.append(mk_record(len(recs), num, resname, an, vel, wide))
     title = title or "verif C12  %s %s t= 0.0" % (scheme, ",".join(seq))
     box = BOXES[variant % 2]
     return fmt_file(title, recs, box, eol), recs, title, box
@@ -250,7 +276,7 @@ def big_file(seed, idx, nres, vel):
         prevname = nm
         letter = "".join(c for c in nm if c.isalpha())[:1] or "X"
         for j in range(size):
-            recs.append(mk_record(len(recs), num, nm, "%s%d" % (letter, j + 1), vel))
+            recs.append(mk_record(len(recs), num, nm, "%s%d" % (letter, j + 1), vel, ("sparse", 7)))
     title = "verif C12 generated seed=%d idx=%d nres=%d" % (seed, idx, nres)
     # idx % 4: 0 ascii/LF, 1 multi-byte title/LF, 2 ascii/CRLF, 3 multi-byte title/CRLF
     if idx % 2 == 1 and utf8_default():
@@ -908,7 +934,10 @@ def task_small(tier, seed, scheme, vel, firsts, L, enc=False):
     t0 = time.time()
     fam = "seq<=%d,numbering=%s,vel=%d,first=%s" % (L, scheme, int(vel), "|".join(firsts))
     variants = [("", None, "\n")]
-    if enc:
+    if enc == "fullwidth":
+        variants = [(v[0], None, "\n", v[1]) for v in FW_VARIANTS]
+        fam = "seq<=%d,numbering=%s,vel=%d,%s" % (L, scheme, int(vel), "+".join(v[0] for v in variants))
+    elif enc:
         variants = [v for v in ENC_VARIANTS if v[1] is None or utf8_default()]
         fam = "seq<=%d,numbering=%s,vel=%d,%s" % (L, scheme, int(vel), "+".join(v[0] for v in variants))
     acc = Acc(fam)
@@ -919,8 +948,11 @@ def task_small(tier, seed, scheme, vel, firsts, L, enc=False):
             for seq in itertools.product(KIND_NAMES, repeat=l):
                 if seq[0] not in firsts:
                     continue
-                for vname, vtitle, eol in variants:
-                    text, recs, title, box = small_file(seq, scheme, vel, variant=count, title=vtitle, eol=eol)
+                for vname, vtitle, eol, *vw in variants:
+                    text, recs, title, box = small_file(seq, scheme, vel, variant=count, title=vtitle, eol=eol,
+                                                        wide=vw[0] if vw else None)
+                    if any(len(l.rstrip("\r")) != 20 + 24 * (1 + int(vel)) for l in text.split("\n")[2:2 + len(recs)]):
+                        raise RuntimeError("harness: a generated value does not fit its field")
                     count += 1
                     pt = parse_text(text)
                     if pt[2] != recs or pt[0] != title or pt[1] != len(recs):
@@ -1133,6 +1165,11 @@ def _tasks_bounded(prop, tier, seed):
         for vel in (False, True):
             t.append(("small-encoding/%s/vel%d" % (scheme, int(vel)), task_small,
                       (tier, seed, scheme, vel, KIND_NAMES, L - 1, True), lim))
+    # values that fill the whole 8-character field and touch the previous field: every sequence of length <= 3 (4)
+    for scheme in ("consecutive", "pairs"):
+        for vel in (False, True):
+            t.append(("small-fullwidth/%s/vel%d" % (scheme, int(vel)), task_small,
+                      (tier, seed, scheme, vel, KIND_NAMES, L - 1, "fullwidth"), lim))
     t.append(("shipped/" + SHIPPED, task_shipped, (tier, seed), 300.0))
     if tier == "quick":
         t.append(("history/medium-files", task_history, (tier, seed, (0, 1, 2, 3), (30, 80), "generated 4 files of 30-80 residues, sizes 1..12"), 300.0))
